@@ -4,6 +4,8 @@ BINARIES = {
     'c10':    {'pkg': './cmd/c10', 'overlay': 'plain', 'flags': _FLAGS},
     'c10s':   {'pkg': './cmd/c10', 'overlay': 'plain', 'flags': _FLAGS + ['-ldflags=-s']},
     'c10pie': {'pkg': './cmd/c10', 'overlay': 'plain', 'flags': _FLAGS + ['-buildmode=pie']},
+    # externally linked (cgo) binary with its symbol table: the link mode of goom's own root-package tests
+    'c10cgo': {'pkg': './cmd/c10cgo', 'overlay': 'plain', 'flags': _FLAGS},
 }
 
 SPEC = {
@@ -12,18 +14,22 @@ SPEC = {
     'technique': 'exhaustive enumeration of the running binary\'s own symbol tables (every function-table entry, every ELF '
                  'symbol, 204 generated package variables) and of five near-miss mutations of every name, against '
                  'goom-independent ground truth (runtime.FuncForPC walk of all executable pages, &v, debug/elf + debug/gosym), '
-                 'in three link configurations',
+                 'in four link configurations (default, -s, PIE, external/cgo)',
     'claim': 'for every name in the tables of the three test binaries (default link, -ldflags=-s, -buildmode=pie), through '
              'FindFuncByName and FindVarByName, and for every near-miss of every name: the result is an error (or panic) or '
              'the exact run-time address of a symbol that bears exactly the queried name; in the default link mode every '
              'unambiguous function-table name and every unambiguous ELF object symbol (incl. all generated variables) resolves',
     'note': 'exhaustive over the tables of these three binaries, not over all Go programs; names carried by several symbols '
             'are judged weakly (any of their addresses is accepted); darwin/windows table readers are not exercised; '
-            'external linking/cgo binaries are not built',
+            'the cgo sub-job covers an externally linked binary (function ground truth = runtime walk only)',
     'jobs': [
         {'bin': 'c10', 'shards': 6, 'sub': 'default'},
         {'bin': 'c10s', 'shards': 4, 'sub': 'strip'},
         {'bin': 'c10pie', 'shards': 4, 'sub': 'pie'},
+        {'bin': 'c10cgo', 'shards': 4, 'sub': 'cgo'},
+        # fault sequences: shard index = which of the process' first three lookups cannot open the executable
+        {'bin': 'c10cgo', 'shards': 8, 'sub': 'cgo-fault'},
+        {'bin': 'c10', 'shards': 8, 'sub': 'default-fault'},
     ],
     'rule': 'engine E. Space per link configuration: N = {runtime function names (FuncForPC walk over every byte of every '
             'executable mapping of the image)} + {pclntab names via debug/gosym, non-PIE} for FindFuncByName; '
